@@ -961,6 +961,14 @@ theorem run_shape (c : Cmd) (h : StepsOK c) : Shape c.run := by
       intro st hs e he
       exact h1 e (mem_filterMap_id.mpr (List.mem_map.mpr ⟨st, hs, he⟩))
     · exact .base (.ok rfl rfl rfl)
+  | lsFiles s =>
+    simp only [Cmd.run, build]
+    split
+    · rename_i o ho
+      refine .base (runSteps_shape _ o ?_ ho)
+      intro st hs e he
+      exact h1 e (mem_filterMap_id.mpr (List.mem_map.mpr ⟨st, hs, he⟩))
+    · exact .base (.ok rfl rfl rfl)
   | format m sw ctl f d io =>
     simp only [Cmd.run, format]
     refine .base (formatFull_shape m sw ctl f d io ?_ ?_ ?_)
@@ -1797,5 +1805,98 @@ theorem parseItem_render (f : Format) (as : List Annot) (h : Side f as) :
   | gha => simp only [parseItem, render, proj, parseGhaLine_ghaLine a, Option.map_some]
   | json => rfl
   | junit => simp only [parseItem, render, proj, parseJunitCase_junitCase a (h.2 a ha), Option.map_some]
+
+/-! ### the `-w` walk at the level of file contents -/
+
+/-- what a truncating rewrite of a file leaves in it = what the file is to hold -/
+theorem WFile.written_eq_want (f : WFile) :
+    (if f.changed then writeTrunc f.orig (f.fmt.getD f.orig) else f.orig) = f.want := by
+  unfold WFile.changed WFile.want writeTrunc
+  cases ht : f.target
+  · simp
+  · cases hf : f.fmt with
+    | none => simp
+    | some t =>
+      by_cases h : t = f.orig
+      · simp [h]
+      · simp [h]
+
+/-- when every changed file can be opened the walk visits every file and does not fail -/
+theorem rewriteWalk_clean (wr : Str → Str → Str) (fs : List WFile)
+    (h : ∀ f ∈ fs, f.changed = true → f.openable = true) :
+    rewriteWalk wr fs =
+      (fs.map fun f => (f.path, if f.changed then wr f.orig (f.fmt.getD f.orig) else f.orig), false) := by
+  induction fs with
+  | nil => rfl
+  | cons f rest ih =>
+    have ih' := ih (fun g hg => h g (List.mem_cons_of_mem _ hg))
+    unfold rewriteWalk
+    cases hc : f.changed
+    · simp [hc, ih']
+    · have ho := h f (List.mem_cons_self ..) hc
+      simp [hc, ho, ih']
+
+/-- the walk stops at the first changed file that cannot be opened: the files before it are
+    rewritten, that file and the ones after it are as they were, the run fails -/
+theorem rewriteWalk_stops (wr : Str → Str → Str) (pre : List WFile) (f : WFile) (post : List WFile)
+    (hpre : ∀ g ∈ pre, g.changed = true → g.openable = true)
+    (hc : f.changed = true) (ho : f.openable = false) :
+    rewriteWalk wr (pre ++ f :: post) =
+      ((pre.map fun g => (g.path, if g.changed then wr g.orig (g.fmt.getD g.orig) else g.orig))
+        ++ (f.path, f.orig) :: untouched post, true) := by
+  induction pre with
+  | nil => simp [rewriteWalk, hc, ho]
+  | cons g rest ih =>
+    have ih' := ih (fun x hx => hpre x (List.mem_cons_of_mem _ hx))
+    simp only [List.cons_append]
+    unfold rewriteWalk
+    cases hg : g.changed
+    · simp [hg, ih']
+    · have hgo := hpre g (List.mem_cons_self ..) hg
+      simp [hg, hgo, ih']
+
+/-- whatever a write does and whether or not the walk fails: the set of paths is unchanged and a
+    file that is not among the changed paths keeps its content -/
+theorem rewriteWalk_frame (wr : Str → Str → Str) (fs : List WFile) :
+    (rewriteWalk wr fs).1.map Prod.fst = fs.map (·.path) ∧
+    ∀ f ∈ fs, f.changed = false → (f.path, f.orig) ∈ (rewriteWalk wr fs).1 := by
+  induction fs with
+  | nil => exact ⟨rfl, fun f hf => nomatch hf⟩
+  | cons g rest ih =>
+    obtain ⟨ih1, ih2⟩ := ih
+    unfold rewriteWalk
+    cases hg : g.changed
+    · refine ⟨by simp [ih1], ?_⟩
+      intro f hf hcf
+      rcases List.mem_cons.mp hf with rfl | hf
+      · simp
+      · simp only [Bool.false_eq_true, if_false]
+        exact List.mem_cons_of_mem _ (ih2 f hf hcf)
+    · cases hgo : g.openable
+      · refine ⟨by simp [untouched, List.map_map, Function.comp_def], ?_⟩
+        intro f hf hcf
+        rcases List.mem_cons.mp hf with rfl | hf
+        · rw [hg] at hcf; exact nomatch hcf
+        · simp only [if_true, Bool.false_eq_true, if_false]
+          refine List.mem_cons_of_mem _ ?_
+          exact List.mem_map.mpr ⟨f, hf, rfl⟩
+      · refine ⟨by simp [ih1], ?_⟩
+        intro f hf hcf
+        rcases List.mem_cons.mp hf with rfl | hf
+        · rw [hg] at hcf; exact nomatch hcf
+        · simp only [if_true]
+          exact List.mem_cons_of_mem _ (ih2 f hf hcf)
+
+/-- writing without truncation gives the new text exactly when the old one was not longer -/
+theorem writeOver_eq_iff (old new : Str) : writeOver old new = new ↔ old.length ≤ new.length := by
+  unfold writeOver
+  constructor
+  · intro h
+    have : (new ++ old.drop new.length).length = new.length := by rw [h]
+    simp only [List.length_append, List.length_drop] at this
+    omega
+  · intro h
+    rw [List.drop_eq_nil_of_le h, List.append_nil]
+
 
 end BufModel.Annot
